@@ -208,30 +208,34 @@ Section RB.
     | T _ _ k v r => match r with E => Some (k, v) | T _ _ _ _ _ => max_kv r end
     end.
 
-  (* ---------------------------------------------------------------- Tree_Rem, after the search:
-     x = the node found, p = the way to it. *)
+  (* ---------------------------------------------------------------- Tree_Rem, after the search.
+     rem_splice: `node` (colour nc, at most one child chld, way p1) is taken out:
+       if (Tree_Is_Black(node)) { node takes chld's colour; Tree_Rem_Fix(node); }
+       Tree_Replace(node, chld);  a new root is made black *)
+  Definition rem_splice (nc : color) (chld : tree) (p1 : path) : res tree :=
+    let r := match nc with
+             | Black => rem_fix chld p1
+             | Red => Ok (plug chld p1)
+             end in
+    match p1 with [] => rmap blacken r | _ :: _ => r end.
+
+  Definition rem_node (node : tree) (p1 : path) : res tree :=
+    match node with
+    | E => Crash
+    | T nc nl _ _ nr => rem_splice nc (match nr with E => nl | T _ _ _ _ _ => nr end) p1
+    end.
+
+  (* x = the node found, p = the way to it *)
   Definition rem_at (x : tree) (p : path) : res tree :=
     match x with
     | E => Crash
     | T xc xl xk xv xr =>
-        let '(node, p1) :=
-          match xl, xr, max_kv xl with
-          | T _ _ _ _ _, T _ _ _ _ _, Some (pk, pv) =>
-              (* two children: the in-order predecessor's key and value are copied into the node
-                 (memcpy; the node keeps its colour), the predecessor is removed instead *)
-              max_node xl (F DL xc pk pv xr :: p)
-          | _, _, _ => (x, p)
-          end in
-        match node with
-        | E => Crash
-        | T nc nl _ _ nr =>
-            let chld := match nr with E => nl | T _ _ _ _ _ => nr end in
-            let r := match nc with
-                     | Black => rem_fix chld p1     (* node takes chld's colour; Tree_Rem_Fix(node) *)
-                     | Red => Ok (plug chld p1)
-                     end in
-            (* Tree_Replace(node, chld); a new root is made black *)
-            match p1 with [] => rmap blacken r | _ :: _ => r end
+        match xl, xr, max_kv xl with
+        | T _ _ _ _ _, T _ _ _ _ _, Some (pk, pv) =>
+            (* two children: the in-order predecessor's key and value are copied into the node
+               (memcpy; the node keeps its colour), the predecessor is removed instead *)
+            let '(node, p1) := max_node xl (F DL xc pk pv xr :: p) in rem_node node p1
+        | _, _, _ => rem_node x p
         end
     end.
 
